@@ -161,7 +161,7 @@ def main():
             "guard": "epserde_verif",
             "enable": "RUSTFLAGS '--cfg epserde_verif --check-cfg cfg(epserde_verif)' set in /verif/harness/.cargo/config.toml",
             "baseline_off_cmd": "cd /repo && cargo test --workspace --no-fail-fast --offline",
-            "source_commits": [],
+            "source_commits": ["723a3a3"],
             "add_only": True,
         },
         "engines": [
